@@ -189,7 +189,7 @@ class MonCache:
                 if st is not None:
                     mon.pops[st]["done"] = True
                     mon.cur_pop[key] = st
-                    mon.cached[key] = True
+                    mon.cached[key] = not getattr(self, "never_stores", False)
             else:
                 s.user["c19_pending_pop"].pop(me, None)
                 mon.cached[key] = False
@@ -298,7 +298,8 @@ class C19:
             from checks.c19_openml import gen_openml
             return gen_openml(rng, index)
         n_callers = weighted(rng, [(2, 4), (3, 4), (4, 2), (5, 1)])
-        backend = weighted(rng, [("memory", 1), ("disk", 1)])
+        # ("null": caching is switched off - CobaMultiprocessor still wraps the NullCacher in a ConcurrentCacher; nothing is ever stored)
+        backend = weighted(rng, [("memory", 4), ("disk", 4), ("null", 1)])
         shape = weighted(rng, [("threads", 1), ("procs", 1)])
         faulty = index % 2 == 1
         pool = []
@@ -385,6 +386,9 @@ class C19:
         state = {}
 
         def make_base():
+            if cfg["backend"] == "null":
+                from coba.context import NullCacher
+                return NullCacher()
             return DiskCacher(tmpdir) if cfg["backend"] == "disk" else state.setdefault("mem", MemoryCacher())
 
         def do_get(cc, op, phase, cidx):
@@ -477,6 +481,7 @@ class C19:
             array._core.on_write = lambda i, v: cells.__setitem__(i, v)
             lock = prims.SimLock()
             inner = MonCache(make_base(), mon)
+            inner.never_stores = cfg["backend"] == "null"
             shared = ConcurrentCacher(inner, array, lock)
             ccs, tasks = [], []
             for cidx, ops in enumerate(scripts):
@@ -484,7 +489,9 @@ class C19:
                     cc = shared
                     pid = None
                 else:
-                    cc = ConcurrentCacher(MonCache(make_base(), mon), array, lock)
+                    mc = MonCache(make_base(), mon)
+                    mc.never_stores = cfg["backend"] == "null"
+                    cc = ConcurrentCacher(mc, array, lock)
                     pid = sim.new_pid()
                 ccs.append(cc)
                 tasks.append(sim.spawn(lambda cc=cc, ops=ops, cidx=cidx: caller_body(cc, ops, phase, cidx),
@@ -569,9 +576,13 @@ class C19:
             return out
         ops = {}
 
+        same_key_nesting = set()      # ids of operations that nest (or are nested in) a get_set on the SAME key
+
         def walk(op):
             ops[op["id"]] = op
             if op.get("body", {}).get("nest"):
+                if op["body"]["nest"]["key"] == op["key"]:
+                    same_key_nesting.update((op["id"], op["body"]["nest"]["id"]))
                 walk(op["body"]["nest"])
         for c in cfg["callers"]:
             for op in c:
@@ -612,6 +623,11 @@ class C19:
                 if op is not None and op.get("body", {}).get("nest") and op["body"]["nest"].get("disk_fault") \
                         and getattr(e, "opid", None) == op["body"]["nest"]["id"]:
                     allowed = True
+                if cfg["backend"] == "null" and opid in same_key_nesting and "unrecoverable state" in str(e):
+                    # a cache that stores nothing cannot serve a get_set nested inside a get_set on the same key: the inner call would have
+                    # to take the write lock while its own thread reads.  ConcurrentCacher refuses that, loudly and by design
+                    allowed = True
+                    mon.hit("reach.nested_same_key_refused_on_non_storing_cache")
                 if phase == "p2" and key in mon.torn:
                     # a torn file may yield an exception, never a short value.  (That includes the zero-length file: behind a ConcurrentCacher
                     # its first caller gets a TypeError - the hit path asks DiskCacher without a getter - and the file is gone afterwards.
